@@ -195,6 +195,15 @@ func (g *Gen) Target() *State {
 		m.Chains = append(m.Chains, c)
 		s.Tables = append(s.Tables, m)
 	}
+	// Comments with a '#' inside on some rules (hand-made rules from raw
+	// files carry ticket numbers); decided by generated content.
+	for _, c := range filter.Chains {
+		for i := range c.Rules {
+			if r := &c.Rules[i]; r.Raw == "" && len(r.Dport) == 5 {
+				r.Comment = "ticket #" + r.Dport[:2] + " ok"
+			}
+		}
+	}
 	if len(filter.Chains)%3 == 0 {
 		// A table beyond filter / nat / mangle (decided by generated
 		// content, no further draw).
